@@ -621,3 +621,23 @@ pub fn gen_srv(rng: &mut Rng, count: u64, tier: &str) -> Vec<String> {
     }
     out
 }
+
+// entry points shared with the concurrent suite
+pub fn build_tree_pub(root: &Path, tree: &str) {
+    build_tree(root, tree)
+}
+pub fn snapshot_pub(root: &Path) -> String {
+    snapshot(root)
+}
+pub fn start_server_pub(root: &Path, flags: &str, dup: u8) -> SocketAddr {
+    start_server(root, flags, dup)
+}
+pub fn subst_root_pub(dg: &[u8], root: &Path) -> Vec<u8> {
+    subst_root(dg, root)
+}
+pub fn tree_token_pub() -> String {
+    tree_token()
+}
+pub fn req_pub(op: u8, name: &[u8], opts: &[(String, String)]) -> Vec<u8> {
+    req(op, name, opts)
+}
